@@ -1367,7 +1367,9 @@ def broadcast_arrays(*arrays, **kwargs):
         inputs.append(y)
 
     def getfunction(inputs):
-        if all(isinstance(x, ak.layout.NumpyArray) for x in inputs):
+        # multidimensional NumpyArrays still have dimensions to broadcast (broadcast_and_apply turns them into
+        # RegularArrays): only flat ones are leaves
+        if all(isinstance(x, ak.layout.NumpyArray) and x.ndim == 1 for x in inputs):
             return lambda: tuple(inputs)
         else:
             return None
